@@ -1584,8 +1584,8 @@ func C13(rc *vk.Rec) {
 		return
 	}
 	race := os.Getenv("C13_RACE") != ""
-	nrt := rc.N(960, 24000)
-	nflt := rc.N(160, 2400)
+	nrt := rc.N(960, 16000)
+	nflt := rc.N(160, 1600)
 	if race {
 		nrt, nflt = 12, 1
 	}
